@@ -157,7 +157,7 @@ fn c05_q_spsc_send_vs_receiver_close() {
 /// must be delivered, not Disconnected.
 #[kani::proof]
 #[kani::unwind(5)]
-fn c04_t_spsc_recv_vs_send_then_drop() {
+fn c04_x_spsc_recv_vs_send_then_drop() {
   setup!(1, 0, tx, rx);
   sched::install(a_send7_then_drop, 1, 1);
   sched::set_stuck_is_bug(true);
